@@ -141,7 +141,10 @@ class Env:
         if mode == "symbolic":
             self.I = symex.Interp(dump_sources(files), split_bound=K, len_bound=N, lits=lits)
             for k, fn in (overrides or {}).items():
-                self.I.overrides[k] = fn
+                if k.startswith("parse:"):
+                    self.I.parse_models[k[6:]] = fn
+                else:
+                    self.I.overrides[k] = fn
         else:
             self.I = None
 
@@ -166,7 +169,7 @@ class Env:
         else:
             x = z3.BitVec(name, bstr.W)
             self.assumes.append(ule(x, bv(maxv)))
-            v = VInt(x)
+            v = VInt(x, maxval=maxv)
         self.inputs[name] = ("int", v)
         return v
 
@@ -196,6 +199,8 @@ class Env:
     # ---- calls
     def call(self, fn, *args):
         if self.mode == "symbolic":
+            if fn.startswith("display:"):
+                return self.I.name_value(self.I.display_struct(args[0]))
             return self.I.call(fn, list(args))
         name, conv = self.native_map.get(fn, (fn, None))
         jargs = conv([to_json(a) for a in args]) if conv else [to_json(a) for a in args]
@@ -205,6 +210,19 @@ class Env:
             self.native_panicked = True
             raise NativePanic(name, jargs)
         return to_v(r["ok"])
+
+
+def _env_native(self, name, jargs):
+    """replay mode only: call a native-runner function directly, returning its JSON value"""
+    r = native_calls([(name, jargs)])[0]
+    self.native_log.append({"f": name, "a": jargs, "r": r})
+    if "panic" in r:
+        self.native_panicked = True
+        raise NativePanic(name, jargs)
+    return r["ok"]
+
+
+Env.native = _env_native
 
 
 class NativePanic(Exception):
@@ -320,7 +338,7 @@ def replay_counterexample(qfn, files, inputs, obligation_label, kind, native_map
     return False, {"native": E.native_log, "note": "obligation not reached in replay"}
 
 
-def differential(files, vectors, native_map=None, K=6, N=24, lits=None, overrides=None):
+def differential(files, vectors, native_map=None, K=6, N=24, lits=None, overrides=None, composites=None):
     """vectors: [(fn, [python args])]; compares interpreter(concrete) with the real function.
     -> (n_checked, mismatches list)"""
     calls = []
@@ -328,9 +346,15 @@ def differential(files, vectors, native_map=None, K=6, N=24, lits=None, override
     for fn, args in vectors:
         I = symex.Interp(dump_sources(files), split_bound=K, len_bound=N, lits=lits)
         for k, f in (overrides or {}).items():
-            I.overrides[k] = f
+            if k.startswith("parse:"):
+                I.parse_models[k[6:]] = f
+            else:
+                I.overrides[k] = f
         try:
-            r = I.call(fn, [to_v(a) for a in args])
+            if fn.startswith("@"):
+                r = composites[fn][0](I, [to_v(a) for a in args])
+            else:
+                r = I.call(fn, [to_v(a) for a in args])
             if any(not z3.is_false(z3.simplify(g)) for g, _ in I.unwinds):
                 mine.append(("bound", None))
             elif any(z3.is_true(z3.simplify(g)) for g, _ in I.panics):
@@ -339,7 +363,10 @@ def differential(files, vectors, native_map=None, K=6, N=24, lits=None, override
                 mine.append(("ok", symex.concrete(r)))
         except Unsupported as ex:
             mine.append(("unsupported", str(ex)))
-        name, conv = (native_map or {}).get(fn, (fn, None))
+        if fn.startswith("@"):
+            name, conv = composites[fn][1], (composites[fn][2] if len(composites[fn]) > 2 else None)
+        else:
+            name, conv = (native_map or {}).get(fn, (fn, None))
         calls.append((name, conv(list(args)) if conv else list(args)))
     real = native_calls(calls)
     mism = []
@@ -355,6 +382,8 @@ def differential(files, vectors, native_map=None, K=6, N=24, lits=None, override
                 mism.append({"fn": fn, "args": args, "encoder": "panic", "real": r})
         elif "panic" in r:
             mism.append({"fn": fn, "args": args, "encoder": m[1], "real": "panic"})
+        elif isinstance(r["ok"], dict) and ("uri_error" in r["ok"] or "header_error" in r["ok"]):
+            n -= 1  # the real URI/header parser rejected the text: vector not comparable
         elif not same(m[1], r["ok"]):
             mism.append({"fn": fn, "args": args, "encoder": m[1], "real": r["ok"]})
     return n, mism
